@@ -15,6 +15,9 @@ import (
 func init() {
 	f := "internal/native/wat2x64/func.go"
 	register(&Property{ID: "C02", Run: runC02, Mutants: []Mutant{
+		{Name: "f64.le loses its NaN guard", File: "internal/native/wat2x64/func.go", Old: "\t\tfmt.Fprintf(w, \"    setbe   al\\n\")\n\t\tfmt.Fprintf(w, \"    setnp   cl # set if not NaN\\n\")\n\t\tfmt.Fprintf(w, \"    and     al, cl\\n\")", New: "\t\tfmt.Fprintf(w, \"    setbe   al\\n\")", Nth: 1, Expect: "float-compare-truth-table :: f64.le"},
+		{Name: "f32.ne is false on NaN", File: "internal/native/wat2x64/func.go", Old: "\t\tfmt.Fprintf(w, \"    setne   al\\n\")\n\t\tfmt.Fprintf(w, \"    setp    cl # set if NaN\\n\")\n\t\tfmt.Fprintf(w, \"    or      al, cl\\n\")", New: "\t\tfmt.Fprintf(w, \"    setne   al\\n\")", Expect: "float-compare-truth-table :: f32.ne"},
+		{Name: "linux memmove helper copies in the wrong direction", File: "internal/native/wat2x64/assets/native-env-linux-x64.s", Old: "    cmp rdi, rsi ", New: "    cmp rsi, rdi ", Expect: "memmove-direction :: internal/native/wat2x64/assets/native-env-linux-x64.s"},
 		{Name: "i64.lt_u uses the signed condition", File: f, Old: "        fmt.Fprintf(w, \"    # i64.lt_u\\n\")\n\t\tfmt.Fprintf(w, \"    mov   r10, qword ptr [rbp%+d]\\n\", sp1)\n\t\tfmt.Fprintf(w, \"    mov   r11, qword ptr [rbp%+d]\\n\", sp0)\n\t\tfmt.Fprintf(w, \"    cmp   r10, r11\\n\")\n\t\tfmt.Fprintf(w, \"    setb  al\\n\")", New: "", Expect: "never"},
 		{Name: "i32.shr_s shifts logically", File: f, Old: "sar  eax, cl", New: "shr  eax, cl", Expect: "x64-core-op :: i32.shr_s"},
 		{Name: "i32.div_u divides signed", File: f, Old: "    div  dword ptr [rbp%+d]", New: "    idiv dword ptr [rbp%+d]", Expect: "x64-core-op :: i32.div_u"},
@@ -297,6 +300,8 @@ func runC02(c *Ctx) {
 	if x64 == nil {
 		return
 	}
+	c02FloatCompare(c, p, x64)
+	c02Memmove(c)
 	// sibling agreement
 	var names []string
 	for k := range ins {
